@@ -22,6 +22,8 @@ EXPLANATION = (
     "reference fingerprints) and the exits of take - in particular the identity shortcut that returns x unchanged - are structurally "
     "unchanged. Everything else about index semantics (normalisation, negative steps, fancy indices, .vindex, .blocks) is arithmetic "
     "over shapes and chunk boundaries and is not decided."
+    " R12.6 GUARD a slice's stop is never used for its truth value (`idx.stop or None`, `if s.stop:`): 0 is the empty prefix x[:0] and "
+    "must not be conflated with a missing stop (expected count zero; the matcher is exercised on an embedded positive example every run)."
 )
 ASSUMPTIONS = ["freeze_chunks()/ChunksFreeze restore the advertised layout at lowering (C03 R03.2 / C20 R20.3)"]
 TRUSTED = ["CPython ast", "sa.cfg must-pass", "sa.dataflow"]
@@ -120,7 +122,56 @@ def r12_5(ctx):
     return check_reference(ctx, rr, PROP)
 
 
-RULES = [r12_1, r12_2, r12_3, r12_4, r12_5]
+_STOP_POSITIVE_EXAMPLE = "def f(idx):\n    return slice(idx.start or None, idx.stop or None, None)\n"
+
+
+def _truthiness_uses(fnode, attrs=("stop",)):
+    """Places where ``<x>.stop`` is used for its truth value: left operand of ``or`` / any operand of ``and``, the test of
+    if / while / conditional expression / comprehension filter, the operand of ``not``."""
+    out = []
+    for n in ast.walk(fnode):
+        tests = []
+        if isinstance(n, ast.BoolOp):
+            tests += n.values[:-1] if isinstance(n.op, ast.Or) else n.values
+        if isinstance(n, (ast.If, ast.While, ast.IfExp)):
+            tests.append(n.test)
+        if isinstance(n, ast.UnaryOp) and isinstance(n.op, ast.Not):
+            tests.append(n.operand)
+        if isinstance(n, ast.comprehension):
+            tests += n.ifs
+        for t in tests:
+            if isinstance(t, ast.Attribute) and t.attr in attrs:
+                out.append((t, n))
+    return out
+
+
+def r12_6(ctx):
+    rr = RuleResult("R12.6", "GUARD", "a slice's stop is never used for its truth value (`idx.stop or None`, `if s.stop:`): 0 is a meaningful stop - the empty prefix - and must not be conflated with None", min_instances=1)
+    # the matcher must recognise the pattern it forbids (expected count on the tree: zero)
+    probe = ast.parse(_STOP_POSITIVE_EXAMPLE).body[0]
+    hits = _truthiness_uses(probe)
+    rr.inst("positive-example", matched=len(hits))
+    if len(hits) != 1:
+        from ..model import AnalysisError
+
+        raise AnalysisError("R12.6 matcher no longer recognises its own positive example")
+    n_funcs = 0
+    for m in ctx.repo.units:
+        if ".tests" in m.name:
+            continue
+        for f in m.functions.values():
+            if f.parent is not None:
+                continue
+            n_funcs += 1
+            for t, where in _truthiness_uses(f.node):
+                c = site(f, where)[:170]
+                rr.inst(c, expr=unparse(t))
+                ctx.finding(rr, c, f"{unparse(t)} is used for its truth value: a stop of 0 (the empty prefix x[:0]) is treated like a missing stop, so the selection silently becomes the whole axis", func=f, node=where)
+    rr.notes.append(f"{n_funcs} functions scanned")
+    return rr
+
+
+RULES = [r12_1, r12_2, r12_3, r12_4, r12_5, r12_6]
 
 LEVEL_TEXT = (
     "Static decision of a single necessary condition of C12: the per-chunk offset literals (and the x_chunks literal) "
